@@ -16,6 +16,8 @@ import (
 )
 
 var checks = map[string]func(*ctx){
+	"C01": runC01,
+	"C02": runC02,
 	"C03": runC03,
 }
 
